@@ -37,7 +37,7 @@ func nickScenario(rejoin bool) []verdict {
 	// address, the channel and the error of the call.
 	join := func(f func(ctx context.Context) (*muc.Channel, error)) (string, *muc.Channel, error, bool) {
 		rc := make(chan res, 1)
-		ctx, cancel := context.WithTimeout(context.Background(), 4*watchdog)
+		ctx, cancel := context.WithTimeout(context.Background(), 2*watchdog)
 		defer cancel()
 		go func() {
 			ch, err := f(ctx)
@@ -72,7 +72,7 @@ func nickScenario(rejoin bool) []verdict {
 		select {
 		case r := <-rc:
 			return to, r.ch, r.err, true
-		case <-time.After(5 * watchdog):
+		case <-time.After(3 * watchdog):
 			return to, nil, nil, false
 		}
 	}
